@@ -131,6 +131,7 @@ def run_mapping(
                         "unable to write to "
                         f"{pth.resolve().absolute()}")
 
+    tmp_result_dir = None
     try:
         if config['tmp_dir'] is not None:
             tmp_result_dir = tempfile.mkdtemp(
@@ -179,7 +180,6 @@ def run_mapping(
                         },
                         indent=2))
 
-        _clean_up(tmp_result_dir)
         log.info("MAPPING FROM SPECIFIED MARKERS RAN SUCCESSFULLY")
     except Exception:
         traceback_msg = "an ERROR occurred ===="
@@ -187,6 +187,7 @@ def run_mapping(
         log.add_msg(traceback_msg)
         raise
     finally:
+        _clean_up_result_buffer(tmp_result_dir)
         _clean_up(tmp_dir)
         log.info("CLEANING UP")
         if log_path is not None:
@@ -218,6 +219,23 @@ def run_mapping(
             blob_to_hdf5(
                 output_blob=output,
                 dst_path=hdf5_output_path)
+
+
+def _clean_up_result_buffer(tmp_result_dir, n_attempts=10):
+    """
+    Remove the directory in which the worker processes buffer
+    their results, whether or not the mapping succeeded. After
+    a worker has failed, the other workers can still be writing
+    to that directory while it is being removed: try again in
+    that case, and do not let the clean up mask the error that
+    is being reported.
+    """
+    for _ in range(n_attempts):
+        try:
+            _clean_up(tmp_result_dir)
+            return
+        except OSError:
+            continue
 
 
 def _run_mapping(config, tmp_dir, tmp_result_dir, log):
@@ -275,8 +293,16 @@ def _run_mapping(config, tmp_dir, tmp_result_dir, log):
 
     # ========= query marker cache =========
 
+    # without a tmp_dir, write the cache to the result buffer
+    # (which run_mapping removes) rather than to the system's
+    # temporary directory, where nothing would remove it
+    if tmp_dir is not None:
+        query_marker_dir = tmp_dir
+    else:
+        query_marker_dir = tmp_result_dir
+
     query_marker_tmp = pathlib.Path(
-        mkstemp_clean(dir=tmp_dir,
+        mkstemp_clean(dir=query_marker_dir,
                       prefix='query_marker_',
                       suffix='.h5'))
 
